@@ -11,10 +11,12 @@ from harness import common as C
 from harness import c17_translate as T
 
 PROP = "C17"
-# FIXED=1 (default): the tree under test contains the fix: commits for C17-F1..F8 -- the repaired model
-# (`all_fixes`) is compared, the oracle demands the full statement (none of the former finding classes
-# is accepted) and Props/C17Now.v (facts about the repaired translation) is built.
-# FIXED=0: the tree before the fixes, compared with `no_fixes`; the former findings are recognised again.
+# /repo contains the repairs of C17-F1..F8 (fix commits e8c17b3, 192568b, b484e3c, adebd46, e888c67, b5c611b,
+# 6cfe711, 55a866d).  FIXED=1 (default) = the code as it is: the model mode `all_fixes` is compared, the oracle
+# demands the full statement (none of the former finding classes is accepted) and Props/C17Now.v (facts about
+# the current translation) is built.
+# FIXED=0 is only for checking a tree from BEFORE those commits against `no_fixes`, the record of the repaired
+# defects; the former finding classes are then recognised again.
 FIXED = int(os.environ.get("VERIF_C17_FIXED", "1"))
 COQ_TARGETS = ["Props/C17.vo", "Extract/ExtractC17.vo"] + (["Props/C17Now.vo"] if FIXED else [])
 DRIVERS = ["c17"]
@@ -22,45 +24,46 @@ DRIVERS = ["c17"]
 FIX_KEYS = ("reorder", "factor", "match", "copy", "gaps", "disjoint")
 IMPL_FIXES = {k: bool(FIXED) for k in FIX_KEYS}
 
-# the findings repaired by the fix: commits; only consulted with FIXED=0
+# the defects repaired by the fix commits above (behaviour BEFORE the commit given in each entry); only
+# consulted with FIXED=0
 LEGACY_FINDINGS = {
  "C17-F1": {
-  "what": "reorder_columns with keep_others=true appends the first file's extra columns to its own column_order (and to the caller's parameter list): parameters are mutated and a later file with other columns fails with MissingReorderedColumns or is ordered differently",
+  "what": "[behaviour before fix commit e8c17b3] reorder_columns with keep_others=true appends the first file's extra columns to its own column_order (and to the caller's parameter list): parameters are mutated and a later file with other columns fails with MissingReorderedColumns or is ordered differently",
   "class": "the only parameters that differ after the run belong to reorder_columns operations with keep_others=true whose column_order was extended (old list is a prefix of the new one); order-dependence is attributed to it only in runs where that mutation happened"
  },
  "C17-F2": {
-  "what": "factor_column without factor_values (len(None)) or with factor_values but without factor_names (None[index]) passes RemodelerValidator and raises TypeError in do_op",
+  "what": "[behaviour before fix commit 192568b] factor_column without factor_values (len(None)) or with factor_values but without factor_names (None[index]) passes RemodelerValidator and raises TypeError in do_op",
   "class": "TypeError raised inside a factor_column operation whose parameters lack factor_values or factor_names, on a table for which the documented meaning prescribes a result"
  },
  "C17-F3": {
-  "what": "merge_consecutive without the optional match_columns passes RemodelerValidator and raises TypeError (set(None)) in do_op",
+  "what": "[behaviour before fix commit b484e3c] merge_consecutive without the optional match_columns passes RemodelerValidator and raises TypeError (set(None)) in do_op",
   "class": "TypeError raised inside a merge_consecutive operation whose parameters lack match_columns, on a table for which the documented meaning prescribes a result"
  },
  "C17-F4": {
-  "what": "split_rows with a new_events entry without the optional copy_columns passes RemodelerValidator and raises KeyError('copy_columns') in _split_rows",
+  "what": "[behaviour before fix commit adebd46] split_rows with a new_events entry without the optional copy_columns passes RemodelerValidator and raises KeyError('copy_columns') in _split_rows",
   "class": "KeyError 'copy_columns' raised inside a split_rows operation one of whose new_events entries lacks copy_columns"
  },
  "C17-F5": {
-  "what": "remap_columns whose map has exactly two distinct keys fails in KeyMap._remap: pd.Series(self.map_dict) lets pandas 3 infer a RangeIndex from the two 64-bit key hashes and their difference overflows int64 (ValueError: Length of values (2) does not match length of index)",
+  "what": "[behaviour before fix commit e888c67] remap_columns whose map has exactly two distinct keys fails in KeyMap._remap: pd.Series(self.map_dict) lets pandas 3 infer a RangeIndex from the two 64-bit key hashes and their difference overflows int64 (ValueError: Length of values (2) does not match length of index)",
   "class": "ValueError 'Length of values (2) ...' raised inside a remap_columns operation with exactly two distinct keys whose Python hashes differ by at least 2**63 (recomputed by the check)"
  },
  "C17-F6": {
-  "what": "merge_consecutive with set_durations=true raises IndexError in _update_durations when the group numbers produced by _get_remove_groups have a gap (a run of the event code with nothing to merge before a run that merges): it iterates range(max_group) and indexes an empty group",
+  "what": "[behaviour before fix commit b5c611b] merge_consecutive with set_durations=true raises IndexError in _update_durations when the group numbers produced by _get_remove_groups have a gap (a run of the event code with nothing to merge before a run that merges): it iterates range(max_group) and indexes an empty group",
   "class": "IndexError raised inside a merge_consecutive operation with set_durations=true on a table for which the documented meaning prescribes a result"
  },
  "C17-F7": {
-  "what": "remap_columns whose source_columns/destination_columns overlap or repeat a name passes RemodelerValidator but the Dispatcher constructor raises (KEY_AND_TARGET_COLUMNS_NOT_DISJOINT / InvalidIndexError / ValueError)",
+  "what": "[behaviour before fix commit 6cfe711] remap_columns whose source_columns/destination_columns overlap or repeat a name passes RemodelerValidator but the Dispatcher constructor raises (KEY_AND_TARGET_COLUMNS_NOT_DISJOINT / InvalidIndexError / ValueError)",
   "class": "Dispatcher constructor raises for a validated list containing a remap_columns operation whose source_columns + destination_columns are not pairwise distinct"
  },
  "C17-F8": {
-  "what": "merge_consecutive with set_durations=true raises AttributeError ('int' object has no attribute 'max') in _update_durations when the onset and duration cells of the anchor row are plain Python numbers (both columns of object dtype, e.g. because each holds an n/a): `.sum(skipna=True).max()` calls .max() on a scalar",
+  "what": "[behaviour before fix commit 55a866d] merge_consecutive with set_durations=true raises AttributeError ('int' object has no attribute 'max') in _update_durations when the onset and duration cells of the anchor row are plain Python numbers (both columns of object dtype, e.g. because each holds an n/a): `.sum(skipna=True).max()` calls .max() on a scalar",
   "class": "AttributeError with message \"'int' object has no attribute 'max'\" raised inside a merge_consecutive operation with set_durations=true on a table for which the documented meaning prescribes a result (pandas-dtype dependent; not part of the Coq model)"
  }
 }
 
 
 def known(fid):
-    """A former finding id is accepted only when checking the code before the fixes."""
+    """A former finding id is accepted only when checking a tree from before the fix commits (FIXED=0)."""
     return fid if (fid and not FIXED) else None
 
 
@@ -74,7 +77,8 @@ TRUSTED = [
     "(harness/c17_translate.py) on every run",
     "pandas (DataFrame.drop/rename/loc/merge/sort_values/to_numeric/fillna/replace, dtype inference, Series.equals) and "
     "jsonschema are modelled, not verified",
-    "the repairs of C17-F5 (pd.Series built from the hash-keyed dict) and C17-F8 (.max() on a scalar sum) concern "
+    "the repairs of C17-F5 (e888c67, pd.Series built from the hash-keyed dict) and C17-F8 (55a866d, .max() on a scalar "
+    "sum) have NO switch in the model and no theorem distinguishes the code before and after them; they concern "
     "pandas dtype/hash-seed effects that the model never contained: that they no longer occur is established by "
     "testing only (old witnesses in the corpus + every generated case must agree with the model, which has no such failure)",
 ]
@@ -88,6 +92,12 @@ ASSUMPTIONS = [
     "input_unchanged is true by construction in a functional model (tables are values); on the implementation it is "
     "checked by testing only",
     "operations other than the eight non-summary ones are outside the model (validate returns Unmodelled)",
+    "Exn Unmodelled is not a behaviour of the code but marks a run that left the modelled fragment; theorems over ALL "
+    "tables (order independence, valid_always_runs) hold for such runs as equations between outcomes, their meaning "
+    "inside the fragment is C17_valid_list_end_to_end / C17_order_independent_nth; the harness never compares a case "
+    "whose model outcome is Unmodelled",
+    "'the code as it is' = current /repo = model mode all_fixes; every theorem named *_refuted / *_record_* / *_partial "
+    "in PART 2 of Props/C17.v is about the behaviour before the fix commit named next to it",
     "tables given as tsv file paths: Model.read_table models pd.read_csv(sep=tab, keep_default_na=False, "
     "na_values=',null') on the fragment where a column is numeric iff all its cells are canonical integers; the cell "
     "text ',null', floats, quoting, blank lines and '+1'-style numbers are outside the fragment; the backup-manager "
